@@ -118,7 +118,8 @@ theorem extend_spec (ext : Ext) : ∀ (x : SVal) (p : String) (len : Nat) (fs : 
   | .char _, _, _, _, _, _, _, _, h => by simp [extend, ctx_ok, notSupported, fail] at h
   | .str _, _, _, _, _, _, _, _, h => by simp [extend, ctx_ok, notSupported, fail] at h
   | .bytes _, _, _, _, _, _, _, _, h => by simp [extend, ctx_ok, notSupported, fail] at h
-  | .unitStruct _, _, _, _, _, _, _, _, h => by simp [extend, ctx_ok, notSupported, fail] at h
+  | .unitStruct _, p, len, fs, cached, next, seen, r, h => by
+    simp [extend, pushNone, ctx_ok, setValidity, fail, bind, Except.bind] at h
   | .record _ _, _, _, _, _, _, _, _, h => by simp [extend, ctx_ok, notSupported, fail] at h
   | .map _, _, _, _, _, _, _, _, h => by simp [extend, ctx_ok, notSupported, fail] at h
   | .mapRaw _, _, _, _, _, _, _, _, h => by simp [extend, ctx_ok, notSupported, fail] at h
